@@ -136,7 +136,16 @@ func cmdWorker(args []string) int {
 		if v == nil {
 			continue
 		}
-		// violation: minimise, attribute, write the replay file
+		// violation: attribute first; trips that belong to other properties are only counted
+		if pre := sim.Attribute(tr, v); !contains(pre, *prop) {
+			key := v.Class + "->" + strings.Join(pre, "+")
+			sum.Foreign[key]++
+			if sum.Foreign[key] == 1 {
+				emit(workerMsg{T: "foreign", K: uint64(k), Seed: rs, Class: v.Class, Props: pre, Msg: v.Msg})
+			}
+			continue
+		}
+		// minimise, attribute again on the minimised trace, write the replay file
 		dl := time.Now().Add(60 * time.Second)
 		small := sim.Shrink(tr, v.Class, 4000, dl)
 		v2, e2 := sim.RunTrace(small, true)
@@ -172,6 +181,15 @@ func cmdWorker(args []string) int {
 	return 0
 }
 
+func contains(l []string, x string) bool {
+	for _, y := range l {
+		if y == x {
+			return true
+		}
+	}
+	return false
+}
+
 func cmdReplay(args []string) int {
 	fs := flag.NewFlagSet("replay", flag.ExitOnError)
 	quiet := fs.Bool("q", false, "")
@@ -185,12 +203,23 @@ func cmdReplay(args []string) int {
 		fmt.Fprintln(os.Stderr, err)
 		return 2
 	}
+	var probe struct {
+		Property string `json:"property"`
+		Build    string `json:"build"`
+	}
+	json.Unmarshal(b, &probe)
+	if probe.Property == "C19" && strings.HasPrefix(probe.Build, "special") {
+		return sim.ReplayC19File(fs.Arg(0), *quiet)
+	}
+	if strings.HasPrefix(probe.Build, "special-") && probe.Property != "C13" {
+		return sim.ReplaySpecialFile(fs.Arg(0), probe.Property, *quiet)
+	}
 	var tr sim.Trace
 	if err := json.Unmarshal(b, &tr); err != nil {
 		fmt.Fprintln(os.Stderr, err)
 		return 2
 	}
-	if tr.Property == "C13" || tr.Property == "C19" || strings.HasPrefix(tr.Build, "special") {
+	if tr.Property == "C13" && strings.HasPrefix(tr.Build, "special") {
 		return sim.ReplaySpecial(&tr, *quiet)
 	}
 	want := tr.Violation
@@ -278,7 +307,7 @@ func cmdRun(args []string) int {
 
 	thorough := *tier == "thorough"
 	if *runs == 0 {
-		*runs = 6000
+		*runs = 16000
 		if thorough {
 			*runs = 400000
 		}
@@ -296,13 +325,14 @@ func cmdRun(args []string) int {
 
 	type agg struct {
 		sync.Mutex
-		sum       workerSummary
-		shapes    map[uint64]struct{}
-		digests   map[uint64]struct{}
-		viols     []workerMsg
-		unconf    []workerMsg
-		crashes   []string
-		lastStart map[int]workerMsg
+		sum          workerSummary
+		shapes       map[uint64]struct{}
+		digests      map[uint64]struct{}
+		viols        []workerMsg
+		unconf       []workerMsg
+		crashes      []string
+		lastStart    map[int]workerMsg
+		foreignNotes []string
 	}
 	a := &agg{shapes: map[uint64]struct{}{}, digests: map[uint64]struct{}{}, lastStart: map[int]workerMsg{}}
 	a.sum.Ops, a.sum.Faults, a.sum.Probes, a.sum.Foreign = map[string]int{}, map[string]int{}, map[string]int{}, map[string]int{}
@@ -352,6 +382,10 @@ func cmdRun(args []string) int {
 					a.viols = append(a.viols, m)
 				case "unconfirmed":
 					a.unconf = append(a.unconf, m)
+				case "foreign":
+					if len(a.foreignNotes) < 20 {
+						a.foreignNotes = append(a.foreignNotes, fmt.Sprintf("note: foreign trip class=%s props=%v seed=%d: %s", m.Class, m.Props, m.Seed, m.Msg))
+					}
 				case "done":
 					gotDone = true
 					s := m.Sum
@@ -374,6 +408,9 @@ func cmdRun(args []string) int {
 							continue
 						}
 						a.sum.Probes[k] += v
+					}
+					for k, v := range s.Foreign {
+						a.sum.Foreign[k] += v
 					}
 					for _, h := range s.Shapes {
 						a.shapes[h] = struct{}{}
@@ -405,7 +442,10 @@ func cmdRun(args []string) int {
 
 	exit := 0
 	nViol := 0
-	foreign := map[string]int{}
+	foreign := a.sum.Foreign
+	for _, n := range a.foreignNotes {
+		fmt.Fprintln(os.Stderr, n)
+	}
 	var knownLines []string
 	seenKnown := map[string]bool{}
 	for _, m := range a.viols {
